@@ -54,7 +54,7 @@ CHECKS = {
             'Single subscriber; content comparison goes through the library reader (versions, handles, grouping through lxml only); '
             'ordering under concurrent writers is covered by the schedule-exploration part when present in the evidence.', '3/C04'),
     'C05': ('I', 'bounded-exhaustive enumeration of instances of every declared data-type / message / container class against the bundled XSD (independent libxml2 validator), canonical round-trip equality, write idempotence and object-identity rules',
-            '236 classes found by reflection (participant model, message model, WS-Addressing / Eventing / Discovery / DPWS / MEX, SOAP fault, '
+            '225 classes found by reflection (participant model, message model, WS-Addressing / Eventing / Discovery / DPWS / MEX, SOAP fault, '
             'all state and descriptor containers; 174 validated as their named XSD type through a harness-generated wrapper schema or as global '
             'element, the rest inside their owners). Per class: the base instance (members that the library or the XSD requires), every single '
             'member deviation over the member domain (absent where the XSD allows it, every enum member up to 6, every xsi:type substitution whose '
